@@ -380,9 +380,11 @@ func (b *bucket[V]) evict(locus []byte) Entry[V] {
 		panic("evict from bucket with len=0")
 	}
 	var maxIndex string
+	first := true
 	for i := range b.entries {
-		if b.entries[i].CreatedAt.After(b.entries[maxIndex].CreatedAt) {
+		if first || b.entries[i].CreatedAt.After(b.entries[maxIndex].CreatedAt) {
 			maxIndex = i
+			first = false
 		}
 	}
 	e := b.entries[maxIndex]
